@@ -49,9 +49,9 @@ MIN_EVENTS = {'quick': {'oracle:ts.params_vs_optax': 1200, 'oracle:ts.opt_state_
                         'oracle:nnxts.params_vs_optax': 800, 'oracle:nnxts.old_instance_mutated': 350,
                         'oracle:metric.average': 1500, 'oracle:metric.accuracy': 1500, 'oracle:metric.welford': 1100,
                         'oracle:metric.multimetric': 500, 'oracle:metric.reset': 4500, 'oracle:metric.after_reset': 2200},
-              'thorough': {'oracle:ts.params_vs_optax': 10000, 'oracle:ts.old_instance_mutated': 10000,
-                           'oracle:ts.owg_overwrite': 1000, 'oracle:nnxopt.params_vs_optax': 10000,
-                           'oracle:nnxopt.opt_state_vs_optax': 12000, 'oracle:nnxopt.outside_wrt_changed': 25000,
+              'thorough': {'oracle:ts.params_vs_optax': 8000, 'oracle:ts.old_instance_mutated': 8000,
+                           'oracle:ts.owg_overwrite': 1000, 'oracle:nnxopt.params_vs_optax': 8000,
+                           'oracle:nnxopt.opt_state_vs_optax': 12000, 'oracle:nnxopt.outside_wrt_changed': 20000,
                            'oracle:nnxts.params_vs_optax': 8000, 'oracle:metric.average': 8000,
                            'oracle:metric.accuracy': 8000, 'oracle:metric.welford': 6000,
                            'oracle:metric.multimetric': 3000, 'oracle:metric.reset': 24000}}
@@ -1096,9 +1096,9 @@ def run_metric_case(ctx, idx, kind, sid, comp):
 
 def run(ctx):
   quick = ctx.tier == 'quick'
-  n_ts = 660 if quick else 5000
-  n_opt = 660 if quick else 5500
-  n_nnxts = 200 if quick else 1800
+  n_ts = 660 if quick else 4000
+  n_opt = 660 if quick else 4400
+  n_nnxts = 200 if quick else 1500
   n_streams = 3 if quick else 16
 
   import time
